@@ -67,6 +67,11 @@ func (e *Engine) footprintOf(key string) *footprint {
 func (e *Engine) computeFootprint(key string) *footprint {
 	fn := e.funcs[key]
 	fp := &footprint{}
+	if fn == nil {
+		if it, m := e.ifaceMethod(key); m != nil {
+			return e.ifaceFootprint(key, it, m)
+		}
+	}
 	if fn == nil || fn.Blocks == nil {
 		fp.err = "no body for " + key
 		return fp
@@ -144,6 +149,38 @@ func (e *Engine) computeFootprint(key string) *footprint {
 			if _, ok := libModels[key]; ok || libPure[key] {
 				return
 			}
+			if ct := e.specs.Funcs[key]; ct != nil && readOnlyContract(ct) {
+				sub := e.footprintOf(key)
+				if sub.err != "" {
+					fail("%s: %s", shortKey(key), sub.err)
+					return
+				}
+				for _, en := range sub.entries {
+					if en.name != "" {
+						add(en)
+						continue
+					}
+					// parameter-relative (receiver is parameter 0 of the interface heap function)
+					if en.param >= 1 && en.param-1 < len(c.Args) {
+						a := c.Args[en.param-1]
+						if f == fn {
+							if pi := paramIdx(a); pi >= 0 {
+								add(fpEntry{param: pi, which: en.which, sort: en.sort, mt: en.mt, depth: en.depth})
+								continue
+							}
+						}
+						if isMapType(a.Type()) {
+							dn, vn, _, _ := scratch.mapArrs(en.mt, e.regionOf(a))
+							n := dn
+							if en.which == "MV" {
+								n = vn
+							}
+							add(fpEntry{name: n, sort: en.sort, param: -1})
+						}
+					}
+				}
+				return
+			}
 			fail("call through interface method %s", key)
 			return
 		}
@@ -169,8 +206,8 @@ func (e *Engine) computeFootprint(key string) *footprint {
 				return
 			}
 			if ct := e.specs.Funcs[ck]; ct != nil {
-				if !ct.HeapFun {
-					fail("call to %s, which is under contract but not a heap function", shortKey(ck))
+				if !readOnlyContract(ct) {
+					fail("call to %s, whose contract has a modifies clause", shortKey(ck))
 					return
 				}
 				sub := e.footprintOf(ck)
@@ -277,37 +314,92 @@ func (e *Engine) computeFootprint(key string) *footprint {
 	return fp
 }
 
-// heapFunTerm builds hf$f(args..., footprint arrays in state st). argT gives, for map-typed
-// arguments, the Go type carrying the region of the actual argument.
-func (fc *FnCtx) heapFunTerm(ct *FuncContract, args []CVal, st *State) (Term, error) {
-	e := fc.e
-	fn := e.funcs[ct.Key]
-	if fn == nil {
-		return Term{}, fmt.Errorf("call(%q): no such function", ct.Key)
+// hfSig: parameter types (receiver first), result types and parameter names of a heap function:
+// from the SSA function, or - for an interface method - from the interface type.
+func (e *Engine) hfSig(ct *FuncContract) (params []types.Type, names []string, results *types.Tuple, err error) {
+	if fn := e.funcs[ct.Key]; fn != nil {
+		for _, p := range fn.Params {
+			params = append(params, p.Type())
+			names = append(names, p.Name())
+		}
+		return params, names, fn.Signature.Results(), nil
 	}
+	it, m := e.ifaceMethod(ct.Key)
+	if m == nil {
+		return nil, nil, nil, fmt.Errorf("call(%q): no such function or interface method", ct.Key)
+	}
+	sig := m.Type().(*types.Signature)
+	params = append(params, it)
+	names = append(names, "this")
+	for q := 0; q < sig.Params().Len(); q++ {
+		params = append(params, sig.Params().At(q).Type())
+		names = append(names, sig.Params().At(q).Name())
+	}
+	return params, names, sig.Results(), nil
+}
+
+// ifaceMethod resolves a contract key of the form pkg.(Iface).Method.
+func (e *Engine) ifaceMethod(key string) (types.Type, *types.Func) {
+	i := strings.Index(key, ".(")
+	if i < 0 {
+		return nil, nil
+	}
+	rest := key[i+2:]
+	j := strings.Index(rest, ").")
+	if j < 0 {
+		return nil, nil
+	}
+	p := e.pkgs[key[:i]]
+	if p == nil || p.Types == nil {
+		return nil, nil
+	}
+	obj := p.Types.Scope().Lookup(strings.TrimPrefix(rest[:j], "*"))
+	if obj == nil {
+		return nil, nil
+	}
+	it, ok := obj.Type().Underlying().(*types.Interface)
+	if !ok {
+		return nil, nil
+	}
+	for k := 0; k < it.NumMethods(); k++ {
+		if it.Method(k).Name() == rest[j+2:] {
+			return obj.Type(), it.Method(k)
+		}
+	}
+	return nil, nil
+}
+
+// heapFunTerm builds hf$f$k(args..., footprint arrays in state st): result k of heap function f.
+// For a result of type error the term is a Bool: "that result is nil" (error values are allocated
+// per call and are not functions of the inputs; whether there is an error is).
+func (fc *FnCtx) heapFunTerm(ct *FuncContract, k int, args []CVal, st *State) (Term, error) {
+	e := fc.e
 	if !ct.HeapFun {
 		return Term{}, fmt.Errorf("call(%q): the function is not declared heapfun", shortKey(ct.Key))
+	}
+	params, _, res, err := e.hfSig(ct)
+	if err != nil {
+		return Term{}, err
 	}
 	fp := e.footprintOf(ct.Key)
 	if fp.err != "" {
 		return Term{}, fmt.Errorf("heap function %s: %s", shortKey(ct.Key), fp.err)
 	}
-	if len(args) != len(fn.Params) {
-		return Term{}, fmt.Errorf("call(%q): %d arguments, want %d", shortKey(ct.Key), len(args), len(fn.Params))
+	if len(args) != len(params) {
+		return Term{}, fmt.Errorf("call(%q): %d arguments, want %d", shortKey(ct.Key), len(args), len(params))
 	}
-	res := fn.Signature.Results()
-	if res.Len() != 1 {
-		return Term{}, fmt.Errorf("heap function %s must have exactly one result", shortKey(ct.Key))
+	if k < 0 || k >= res.Len() {
+		return Term{}, fmt.Errorf("call(%q): no result #%d", shortKey(ct.Key), k)
 	}
 	var as, sorts []string
 	for i, a := range args {
-		ps := e.sortOf(fn.Params[i].Type())
+		ps := e.sortOf(params[i])
 		t := a.T
 		if t.Sort == "NIL" {
-			t = e.zero(ps, fn.Params[i].Type())
-			if ps == SInt {
-				t = Term{"0", SInt}
-			}
+			t = e.zero(ps, params[i])
+		}
+		if t.Sort != ps && ps == SAny && a.GoT != nil {
+			t = e.box(t, a.GoT)
 		}
 		if t.Sort != ps {
 			return Term{}, fmt.Errorf("call(%q): argument %d has sort %s, want %s", shortKey(ct.Key), i, t.Sort, ps)
@@ -320,7 +412,7 @@ func (fc *FnCtx) heapFunTerm(ct *FuncContract, args []CVal, st *State) (Term, er
 		if name == "" {
 			reg := regOrDefault(e, args[en.param])
 			if args[en.param].GoT == nil {
-				reg = e.regionDefault(fn.Params[en.param].Type())
+				reg = e.regionDefault(params[en.param])
 			}
 			dn, vn, _, _ := fc.mapArrs(en.mt, reg)
 			name = dn
@@ -332,11 +424,22 @@ func (fc *FnCtx) heapFunTerm(ct *FuncContract, args []CVal, st *State) (Term, er
 		as = append(as, a.S)
 		sorts = append(sorts, en.sort)
 	}
-	rs := e.sortOf(res.At(0).Type())
+	rt := res.At(k).Type()
+	rs := e.sortOf(rt)
+	if isErrorType(rt) {
+		rs = SBool
+	}
 	sym := "hf$" + sanitize(shortKey(ct.Key))
+	if res.Len() > 1 {
+		sym += fmt.Sprintf("$%d", k)
+	}
 	fc.declareFun(sym, sorts, rs)
-	fc.trusted["heap function "+shortKey(ct.Key)+": its result is determined by its arguments and the heap locations it reads (read footprint computed from its SSA: "+fp.describe()+"); Go evaluation of it is deterministic"] = true
+	fc.trusted["heap function "+shortKey(ct.Key)+": its results (for error results: whether they are nil) are determined by its arguments and the heap locations it reads (read footprint computed from the SSA: "+fp.describe()+"); Go evaluation of it is deterministic"] = true
 	return Term{"(" + sym + " " + strings.Join(as, " ") + ")", rs}, nil
+}
+
+func isErrorType(t types.Type) bool {
+	return types.Identical(t, types.Universe.Lookup("error").Type())
 }
 
 func (fp *footprint) describe() string {
@@ -547,4 +650,66 @@ func (e *Engine) addrTaken() map[*ssa.Function]bool {
 	}
 	e.addrTakenSet = m
 	return m
+}
+
+// ifaceFootprint: the read footprint of an interface method declared heapfun: the union of the
+// footprints of the method on every type of the program that implements the interface. Each of
+// those methods must itself be under a heapfun contract (so that it is verified to modify nothing).
+func (e *Engine) ifaceFootprint(key string, it types.Type, m *types.Func) *footprint {
+	fp := &footprint{}
+	iface := it.Underlying().(*types.Interface)
+	seen := map[string]bool{}
+	var impls []string
+	for k, f := range e.funcs {
+		if f.Name() != m.Name() || f.Signature.Recv() == nil || f.Pkg == nil || f.Synthetic != "" {
+			continue
+		}
+		if !strings.HasPrefix(f.Pkg.Pkg.Path(), "github.com/google/badwolf") {
+			continue
+		}
+		if !types.Implements(f.Signature.Recv().Type(), iface) {
+			continue
+		}
+		impls = append(impls, k)
+	}
+	sort.Strings(impls)
+	for _, k := range impls {
+		ct := e.specs.Funcs[k]
+		if ct == nil || !readOnlyContract(ct) || ct.NoBody || ct.Trusted {
+			fp.err = fmt.Sprintf("implementation %s is not under a verified contract without modifies clause", shortKey(k))
+			return fp
+		}
+		sub := e.footprintOf(k)
+		if sub.err != "" {
+			fp.err = shortKey(k) + ": " + sub.err
+			return fp
+		}
+		for _, en := range sub.entries {
+			kk := en.name
+			if kk == "" {
+				kk = fmt.Sprintf("|%d|%s", en.param, en.which)
+			}
+			if !seen[kk] {
+				seen[kk] = true
+				fp.entries = append(fp.entries, en)
+			}
+		}
+	}
+	if len(impls) == 0 {
+		fp.err = "no implementation found"
+	}
+	sort.SliceStable(fp.entries, func(i, j int) bool {
+		a, b := fp.entries[i], fp.entries[j]
+		return fmt.Sprintf("%s|%03d|%s", a.name, a.param+1, a.which) < fmt.Sprintf("%s|%03d|%s", b.name, b.param+1, b.which)
+	})
+	return fp
+}
+
+// readOnlyContract: the contract has no modifies clause of any kind, so the frame obligations of the
+// body (or, for an interface method, of every implementation) show that it writes nothing visible.
+func readOnlyContract(ct *FuncContract) bool {
+	if ct.HeapFun {
+		return true
+	}
+	return len(ct.Modifies) == 0 && len(ct.ModAll) == 0 && ct.Opts["modifies-everything"] == "" && ct.Opts["modifies-outside"] == "" && len(ct.Ghostset) == 0
 }
